@@ -39,363 +39,10 @@ From Coq Require Import ZArith List Bool.
 From PV.Base Require Import Prim.
 From PV.Gen Require Import GenConst GenFun.
 From PV.Model Require Import Codec Pack PathTable Names Master.
+From PV.Model Require Export ParseCore.
 From PV.Model Require Account.
 Import ListNotations.
 Local Open Scope Z_scope.
-
-Inductive presult (A : Type) : Type :=
-| POk (a : A)
-| PInvalid (why : Z)          (* the library raises (PyCdlibInvalidISO, or PyCdlibInvalidInput for 4) *)
-| PUnsupported (why : Z)      (* outside the modelled fragment *)
-| PFuel.
-Arguments POk {A} a. Arguments PInvalid {A} why. Arguments PUnsupported {A} why. Arguments PFuel {A}.
-
-(* a DirectoryRecord object after parse *)
-Record prec := mk_prec {
-  p_rec : drec;              (* the fields DirectoryRecord.parse read (extent = orig_extent_loc) *)
-  p_drlen : Z;               (* self.dr_len: byte 0 of the record *)
-  p_lenfi : Z;               (* self.len_fi: byte 32 *)
-  p_dlen : Z;                (* self.data_length now (set_data_length may have changed it) *)
-  p_ino : option nat;        (* self.inode: index in PyCdlib.inodes *)
-  p_dir : option nat;        (* the directory this record heads (it was appended to `dirs`) *)
-  p_idx : Z; p_eth : Z; p_oth : Z }.   (* index_in_parent, extents_to_here, offset_to_here *)
-
-Record pstate := mk_pstate {
-  s_dirs : list (list prec);     (* children lists of the directories walked completely *)
-  s_cur : list prec;             (* dir_record.children of the directory being read *)
-  s_queue : list (Z * Z);        (* dirs: (extent_location(), get_data_length()) *)
-  s_inodes : list (Z * Z);       (* self.inodes: (orig_extent_loc, data_length) *)
-  s_e2i : list (Z * nat);        (* extent_to_inode *)
-  s_seen : list Z;               (* seen_dir_extents *)
-  s_level : Z; s_lastbyte : Z }.
-
-Definition ps_mem (x : Z) (l : list Z) : bool := existsb (Z.eqb x) l.
-Fixpoint ps_assoc (x : Z) (l : list (Z * nat)) : option nat :=
-  match l with
-  | [] => None
-  | (k, v) :: r => if k =? x then Some v else ps_assoc x r
-  end.
-
-(* ---- names ------------------------------------------------------------------------------------ *)
-
-Definition ps_is_dot (r : drec) : bool := zlist_eqb (Codec.ident r) [0].
-Definition ps_is_dotdot (r : drec) : bool := zlist_eqb (Codec.ident r) [1].
-Definition ps_is_dir (r : drec) : bool := flag_set (flags r) 1.
-Definition ps_is_assoc (r : drec) : bool := flag_set (flags r) 2.
-
-(* file_identifier(): _printable_name *)
-Definition ps_printable (r : drec) : list Z :=
-  if ps_is_dot r then [46] else if ps_is_dotdot r then [46; 46] else Codec.ident r.
-
-(* DirectoryRecord.__lt__ on file_ident *)
-Definition ps_lt (a b : list Z) : bool :=
-  if zlist_eqb a [0] then negb (zlist_eqb b [0])
-  else if zlist_eqb b [0] then false
-  else if zlist_eqb a [1] then true
-  else if zlist_eqb b [1] then false
-  else Account.bytes_ltb a b.
-
-(* _interchange_level_from_directory *)
-Definition ps_level_dir (name : list Z) : Z :=
-  if (zlen name >? 8) || negb (all_d1 name) then 3 else 1.
-
-(* _interchange_level_from_filename; None = int(version) raised ValueError *)
-Definition ps_level_file (full : list Z) : option Z :=
-  let '(name, ext, version) := split_iso9660_filename full in
-  let vbad := match version with
-              | [] => Some false
-              | _ => match py_int version with
-                     | Some v => Some ((v <? 1) || (v >? 32767))
-                     | None => None
-                     end
-              end in
-  match vbad with
-  | None => None
-  | Some b =>
-      Some (if b || Names.mem semi name || Names.mem semi ext || (zlen name >? 8) || (zlen ext >? 3)
-               || negb (all_d1 name && all_d1 ext) then 3 else 1)
-  end.
-
-(* ---- track_child ------------------------------------------------------------------------------ *)
-
-(* bisect.bisect_left(children, child): lo, hi = 0, len; while lo < hi: mid = (lo + hi) // 2;
-   if children[mid] < child: lo = mid + 1 else: hi = mid *)
-Fixpoint ps_bisect (fuel : nat) (lt : prec -> bool) (l : list prec) (lo hi : nat) : nat :=
-  match fuel with
-  | O => lo
-  | S f =>
-      if (lo <? hi)%nat then
-        let mid := ((lo + hi) / 2)%nat in
-        match nth_error l mid with
-        | Some a => if lt a then ps_bisect f lt l (S mid) hi else ps_bisect f lt l lo mid
-        | None => lo
-        end
-      else lo
-  end.
-
-Definition ps_set_cache (c : prec) (i eth oth : Z) : prec :=
-  mk_prec (p_rec c) (p_drlen c) (p_lenfi c) (p_dlen c) (p_ino c) (p_dir c) i eth oth.
-
-(* the loop of _recalculate_extents_and_offsets over children[index:] *)
-Fixpoint ps_renum (i : nat) (n off : Z) (l : list prec) : list prec :=
-  match l with
-  | [] => []
-  | c :: r =>
-      let n' := if (off + p_drlen c) >? BS then n + 1 else n in
-      let off' := (if (off + p_drlen c) >? BS then 0 else off) + p_drlen c in
-      ps_set_cache c (Z.of_nat i) n' off' :: ps_renum (S i) n' off' r
-  end.
-
-Definition ps_recalc (index : nat) (l : list prec) : list prec :=
-  let start := match index with
-               | O => (1, 0)
-               | S k => match nth_error l k with
-                        | Some c => (p_eth c, p_oth c)
-                        | None => (1, 0)
-                        end
-               end in
-  firstn index l ++ ps_renum index (fst start) (snd start) (skipn index l).
-
-(* parent.track_child(new_record) with the retry of _walk_directories;
-   [last] = last_record.file_identifier() *)
-Definition ps_track (cur : list prec) (child : prec) (last : option (list Z)) : presult (list prec) :=
-  let nm := Codec.ident (p_rec child) in
-  let index := ps_bisect (S (length cur)) (fun a => ps_lt (Codec.ident (p_rec a)) nm) cur 0 (length cur) in
-  let dup := match nth_error cur index with
-             | Some c => zlist_eqb (Codec.ident (p_rec c)) nm && negb (ps_is_assoc (p_rec c))
-                         && negb (ps_is_assoc (p_rec child))
-             | None => false
-             end in
-  if dup then
-    if ps_is_dir (p_rec child)
-       || match last with
-          | None => true
-          | Some l => negb (zlist_eqb l (ps_printable (p_rec child)))
-          end
-    then PInvalid 4                     (* 'Failed adding duplicate name to parent' *)
-    else PUnsupported 2                 (* a further extent of a multi-extent file *)
-  else POk (ps_recalc index (insert_at index child cur)).
-
-(* ---- the Inode of a file record ------------------------------------------------------------------ *)
-
-Definition ps_set_dlen (i : nat) (v : Z) (c : prec) : prec :=
-  match p_ino c with
-  | Some k => if Nat.eqb k i
-              then mk_prec (p_rec c) (p_drlen c) (p_lenfi c) v (p_ino c) (p_dir c) (p_idx c) (p_eth c) (p_oth c)
-              else c
-  | None => c
-  end.
-
-Definition ps_set_ilen (i : nat) (v : Z) (l : list (Z * Z)) : list (Z * Z) :=
-  match nth_error l i with
-  | Some (e, _) => firstn i l ++ (e, v) :: skipn (S i) l
-  | None => l
-  end.
-
-(* returns (index of the inode, data_length of the new record, new state).
-   [fixed = true]: the code after commit 10cfb30 -- a file that ends beyond the end of the image: the Inode
-   AND every record linked to it get the bytes that are left (rec.set_data_length(inode.data_length));
-   [fixed = false]: the code before it, rec.set_data_length(new_end) = the ABSOLUTE end offset *)
-Definition ps_link_gen (fixed : bool) (isz : Z) (st : pstate) (ext dl : Z) : nat * Z * pstate :=
-  let len_to_use := if dl =? 0 then 0 else dl in
-  let extent_to_use := if dl =? 0 then 0 else ext in
-  let found := if negb (len_to_use =? 0) then ps_assoc extent_to_use (s_e2i st) else None in
-  let i := match found with Some i => i | None => length (s_inodes st) end in
-  let inodes1 := match found with
-                 | Some _ => s_inodes st
-                 | None => s_inodes st ++ [(extent_to_use, len_to_use)]
-                 end in
-  let e2i1 := match found with
-              | Some _ => s_e2i st
-              | None => if negb (len_to_use =? 0) then s_e2i st ++ [(extent_to_use, i)] else s_e2i st
-              end in
-  let new_end := extent_to_use * BS + len_to_use in
-  if new_end >? isz then
-    let left := isz - extent_to_use * BS in
-    let v := if fixed then left else new_end in
-    (i, v,
-     mk_pstate (map (map (ps_set_dlen i v)) (s_dirs st)) (map (ps_set_dlen i v) (s_cur st))
-               (s_queue st) (ps_set_ilen i left inodes1) e2i1 (s_seen st)
-               (s_level st) (s_lastbyte st))
-  else
-    (i, dl,
-     mk_pstate (s_dirs st) (s_cur st) (s_queue st) inodes1 e2i1 (s_seen st) (s_level st)
-               (Z.max (s_lastbyte st) new_end)).
-
-Definition ps_link : Z -> pstate -> Z -> Z -> nat * Z * pstate := ps_link_gen true.
-
-(* the bytes after the identifier (and its pad).  XARecord.parse: for offset in (0, len_fi rounded up to even):
-   fewer than 14 bytes left -> no XA record (at once); bytes 6..7 = 'XA' -> an XA record.  Otherwise a Rock
-   Ridge record is recognised by one of 15 two-byte signatures.  Either one is outside the fragment *)
-Definition ps_rr_sigs : list (Z * Z) :=                 (* SP RR CE PX ER ES PN SL NM CL PL TF SF RE AL *)
-  [(83, 80); (82, 82); (67, 69); (80, 88); (69, 82); (69, 83); (80, 78); (83, 76); (78, 77); (67, 76);
-   (80, 76); (84, 70); (83, 70); (82, 69); (65, 76)].
-Definition ps_xa_sig (s : list Z) : bool := (nth 6 s 0 =? 88) && (nth 7 s 0 =? 65).
-Definition ps_outside (su : list Z) (len_fi : Z) : bool :=
-  (if zlen su <? 14 then false
-   else ps_xa_sig su
-        || (let s2 := skipn (Z.to_nat (len_fi + len_fi mod 2)) su in
-            if zlen s2 <? 14 then false else ps_xa_sig s2))
-  || match su with
-     | a :: b :: _ => existsb (fun s => (fst s =? a) && (snd s =? b)) ps_rr_sigs
-     | _ => false
-     end.
-
-(* ---- one record ------------------------------------------------------------------------------------ *)
-
-(* [ptr]: the extents of the records of the L path table (keys of extent_to_ptr);
-   [isz]: the length of the image in bytes (_get_iso_size) *)
-Definition ps_record (ptr : list Z) (isz : Z) (sl : pstate * option (list Z)) (record : list Z)
-  : presult (pstate * option (list Z)) :=
-  let '(st, last) := sl in
-  match parse_dr record with
-  | None => PInvalid 2
-  | Some r =>
-      if ps_outside (sysuse r) (znth 32 record) then PUnsupported 1 else
-      let is_dir := ps_is_dir r in
-      let dots := ps_is_dot r || ps_is_dotdot r in
-      let '(ino, dlen1, st1) :=
-        if is_dir then (None, data_len r, st)
-        else let '(i, d, s) := ps_link isz st (extent r) (data_len r) in (Some i, d, s) in
-      let queued := is_dir && negb dots in
-      if queued && negb (ps_mem (extent r) ptr) then PInvalid 3 else
-      let dirid := if queued then Some (length (s_dirs st1) + 1 + length (s_queue st1))%nat else None in
-      let queue2 := if queued then s_queue st1 ++ [(extent r, data_len r)] else s_queue st1 in
-      let child := mk_prec r (znth 0 record) (znth 32 record) dlen1 ino dirid (-1) 1 0 in
-      match ps_track (s_cur st1) child last with
-      | POk cur2 =>
-          match (if is_dir then Some (ps_level_dir (ps_printable r)) else ps_level_file (ps_printable r)) with
-          | None => PInvalid 5
-          | Some lv =>
-              POk (mk_pstate (s_dirs st1) cur2 queue2 (s_inodes st1) (s_e2i st1) (s_seen st1)
-                             (Z.max (s_level st1) lv) (s_lastbyte st1),
-                   Some (ps_printable r))
-          end
-      | PInvalid w => PInvalid w
-      | PUnsupported w => PUnsupported w
-      | PFuel => PFuel
-      end
-  end.
-
-(* ---- the records of one directory extent ----------------------------------------------------------- *)
-
-(* [data] = data[offset:] *)
-Section Scan.
-  Context {S : Type}.
-  Variable step : S -> list Z -> presult S.
-
-  Fixpoint ps_scan (fuel : nat) (data : list Z) (offset length : Z) (s : S) : presult S :=
-    match fuel with
-    | O => PFuel
-    | Datatypes.S f =>
-        if offset <? length then
-          match data with
-          | [] => PInvalid 1                                   (* 'Invalid directory record' *)
-          | lenbyte :: _ =>
-              if lenbyte =? 0 then
-                let padsize := BS - offset mod BS in
-                if zlist_eqb (firstn (Z.to_nat padsize) data) (repeat 0 (Z.to_nat padsize))
-                then ps_scan f (skipn (Z.to_nat padsize) data) (offset + padsize) length s
-                else PInvalid 6                                (* 'Invalid padding on ISO' *)
-              else
-                match step s (firstn (Z.to_nat lenbyte) data) with
-                | POk s' => ps_scan f (skipn (Z.to_nat lenbyte) data) (offset + lenbyte) length s'
-                | e => e
-                end
-          end
-        else POk s
-    end.
-End Scan.
-
-(* ---- the walk ---------------------------------------------------------------------------------------- *)
-
-Definition ps_begin_dir (st : pstate) (q : list (Z * Z)) (seen : list Z) : pstate :=
-  mk_pstate (s_dirs st) [] q (s_inodes st) (s_e2i st) seen (s_level st) (s_lastbyte st).
-
-(* dir_block_range (commit 863c802): the blocks of the directory that lie inside the image, at least one *)
-Definition ps_range (isz ext len : Z) : list Z :=
-  map (fun k => ext + Z.of_nat k)
-      (seq 0 (Z.to_nat (Z.max (ceiling_div (Z.min len (Z.max (isz - ext * BS) 0)) BS) 1))).
-
-(* entering a directory.  [fixed = true], the code after commit 863c802: [seen] is seen_dir_blocks; a block of
-   the range seen before -> 'Overlapping directories on the ISO' (9).  That commit also dropped the line
-   seen_dir_extents.add(...): the set stays empty and 'Directory loop on the ISO' (7) can no longer be raised.
-   [fixed = false], the code before it: [seen] is seen_dir_extents, raise 7 *)
-Definition ps_enter (fixed : bool) (isz : Z) (seen : list Z) (ext len : Z) : Z + list Z :=
-  if fixed then
-    let r := ps_range isz ext len in
-    if existsb (fun b => ps_mem b seen) r then inl 9 else inr (r ++ seen)
-  else if ps_mem ext seen then inl 7 else inr (ext :: seen).
-
-Definition ps_end_dir (st : pstate) : pstate :=
-  mk_pstate (s_dirs st ++ [s_cur st]) [] (s_queue st) (s_inodes st) (s_e2i st) (s_seen st)
-            (s_level st) (s_lastbyte st).
-
-(* [rd ext len]: self._seek_to_extent(ext); cdfp.read(len); None = the medium is not described there *)
-Fixpoint ps_walk (fixed : bool) (fuel : nat) (rd : Z -> Z -> option (list Z)) (ptr : list Z) (isz : Z)
-         (st : pstate) : presult pstate :=
-  match fuel with
-  | O => PFuel
-  | S f =>
-      match s_queue st with
-      | [] => POk st
-      | (ext, len) :: q =>
-          match ps_enter fixed isz (s_seen st) ext len with
-          | inl w => PInvalid w
-          | inr seen =>
-              match rd ext len with
-              | None => PUnsupported 3                          (* blocks the image does not describe *)
-              | Some data =>
-                  match ps_scan (ps_record ptr isz) (S (length data)) data 0 len
-                                (ps_begin_dir st q seen, None) with
-                  | POk (st', _) => ps_walk fixed f rd ptr isz (ps_end_dir st')
-                  | PInvalid w => PInvalid w
-                  | PUnsupported w => PUnsupported w
-                  | PFuel => PFuel
-                  end
-              end
-          end
-      end
-  end.
-
-Record pgraph := mk_pgraph {
-  g_dirs : list (list prec); g_inodes : list (Z * Z); g_level : Z; g_lastbyte : Z }.
-
-Definition ps_graph (st : pstate) : pgraph :=
-  mk_pgraph (s_dirs st) (s_inodes st) (s_level st) (s_lastbyte st).
-
-Definition ps_init (root_ext root_len : Z) : pstate :=
-  mk_pstate [] [] [(root_ext, root_len)] [] [] [] 1 0.
-
-(* root_dir_record.set_ptr(path_table_records[0]): IndexError on an empty path table *)
-Definition ps_parse_gen (fixed : bool) (fuel : nat) (rd : Z -> Z -> option (list Z)) (ptr : list Z)
-           (isz root_ext root_len : Z) : presult pgraph :=
-  match ptr with
-  | [] => PInvalid 8
-  | _ =>
-      match ps_walk fixed fuel rd ptr isz (ps_init root_ext root_len) with
-      | POk st => POk (ps_graph st)
-      | PInvalid w => PInvalid w
-      | PUnsupported w => PUnsupported w
-      | PFuel => PFuel
-      end
-  end.
-Definition ps_parse := ps_parse_gen true.
-
-(* the medium given as a finite map of directory extents (Master.image) *)
-Definition parse (fuel : nat) (img : image) (ptr : list Z) (isz root_ext root_len : Z) : presult pgraph :=
-  ps_parse fuel (ms_img_read img) ptr isz root_ext root_len.
-
-(* the medium given as the WHOLE file: seek(ext * 2048) and read(len) return what is there, fewer bytes (or
-   none) at the end of the file.  Extents come out of struct.unpack('<L'): a negative one cannot occur. *)
-Definition ps_file_read (bytes : list Z) (ext len : Z) : option (list Z) :=
-  if (ext <? 0) || (len <? 0) then None
-  else Some (firstn (Z.to_nat (Z.min len (zlen bytes)))
-                    (skipn (Z.to_nat (Z.min (ext * BS) (zlen bytes))) bytes)).   (* = bytes[ext*2048:][:len] *)
-
-Definition parse_file_gen (fixed : bool) (fuel : nat) (bytes : list Z) (ptr : list Z) (root_ext root_len : Z)
-  : presult pgraph := ps_parse_gen fixed fuel (ps_file_read bytes) ptr (zlen bytes) root_ext root_len.
-Definition parse_file := parse_file_gen true.
 
 (* ---- the writer's object graph, numbered breadth first ---------------------------------------------- *)
 
